@@ -303,6 +303,8 @@ def direct_probes(prop, rep):
     """Witnesses outside the modelled item domain (strings, floats, one-shot plain iterators, initial=None):
     evaluated directly against the CPython counterpart."""
     import itertools
+    import functools
+    import heapq
     import asyncstdlib as a
 
     def both(name, sig_, impl, std):
@@ -367,12 +369,69 @@ def direct_probes(prop, rep):
                             out[i].append("stop")
                 return out
             both("tee children %r %r" % (items, ops), "tee:children", tee_async, tee_sync)
+        # items the library has no business inspecting: every comparison, truth test or hash of them raises
+        class Untouchable:
+            def _no(self, *a):
+                raise AssertionError("the tool inspected an item")
+            __eq__ = __ne__ = __lt__ = __le__ = __gt__ = __ge__ = __bool__ = __len__ = __hash__ = __iter__ = _no
+
+        U = [Untouchable() for _ in range(5)]
+
+        def ids(xs):
+            def one(x):
+                if isinstance(x, (tuple, list)):
+                    return tuple(one(y) for y in x)
+                return ("U", U.index(x)) if builtins.any(x is u for u in U) else x
+            return [one(x) for x in xs]
+        last = lambda p, q: q  # noqa
+        yes = lambda x: True  # noqa
+        no = lambda x: False  # noqa
+        for name, fa, fs in [
+            ("zip", lambda: a.zip(U, U[1:]), lambda: zip(U, U[1:])),
+            ("map", lambda: a.map(last, U, U[::-1]), lambda: map(last, U, U[::-1])),
+            ("enumerate", lambda: a.enumerate(U, 3), lambda: enumerate(U, 3)),
+            ("chain", lambda: a.chain(U[:2], U[2:]), lambda: itertools.chain(U[:2], U[2:])),
+            ("batched", lambda: a.batched(U, 2), lambda: itertools.batched(U, 2)),
+            ("islice", lambda: a.islice(U, 1, 4, 2), lambda: itertools.islice(U, 1, 4, 2)),
+            ("pairwise", lambda: a.pairwise(U), lambda: itertools.pairwise(U)),
+            ("zip_longest", lambda: a.zip_longest(U, U[:2], fillvalue=U[0]), lambda: itertools.zip_longest(U, U[:2], fillvalue=U[0])),
+            ("accumulate", lambda: a.accumulate(U, last), lambda: itertools.accumulate(U, last)),
+            ("accumulate initial", lambda: a.accumulate(U[1:], last, initial=U[0]), lambda: itertools.accumulate(U[1:], last, initial=U[0])),
+            ("takewhile", lambda: a.takewhile(yes, U), lambda: itertools.takewhile(yes, U)),
+            ("dropwhile", lambda: a.dropwhile(no, U), lambda: itertools.dropwhile(no, U)),
+            ("filter", lambda: a.filter(yes, U), lambda: filter(yes, U)),
+            ("filterfalse", lambda: a.filterfalse(no, U), lambda: itertools.filterfalse(no, U)),
+            ("compress", lambda: a.compress(U, [1, 0, 1, 1, 0]), lambda: itertools.compress(U, [1, 0, 1, 1, 0])),
+            ("starmap", lambda: a.starmap(last, [(u, v) for u, v in zip(U, U[1:])]), lambda: itertools.starmap(last, [(u, v) for u, v in zip(U, U[1:])])),
+            ("cycle", lambda: a.islice(a.cycle(U[:2]), 5), lambda: itertools.islice(itertools.cycle(U[:2]), 5)),
+            ("tee", lambda: a.tee(U, 2)[1], lambda: itertools.tee(U, 2)[1]),
+            ("tee both", lambda: a.chain.from_iterable(a.tee(U, 3)), lambda: itertools.chain.from_iterable(itertools.tee(U, 3))),
+            ("list", lambda: a.iter(G.drive(a.list(U))), lambda: list(U)),
+            ("tuple", lambda: a.iter(G.drive(a.tuple(U))), lambda: tuple(U)),
+            ("reduce", lambda: a.iter([G.drive(a.reduce(last, U))]), lambda: [functools.reduce(last, U)]),
+            ("min key", lambda: a.iter([G.drive(a.min(U, key=lambda u: [i for i, v in enumerate(U) if v is u][0]))]),
+             lambda: [min(U, key=lambda u: [i for i, v in enumerate(U) if v is u][0])]),
+            ("sorted key", lambda: a.iter(G.drive(a.sorted(U, key=lambda u: -[i for i, v in enumerate(U) if v is u][0]))),
+             lambda: sorted(U, key=lambda u: -[i for i, v in enumerate(U) if v is u][0])),
+            ("nlargest key", lambda: a.iter(G.drive(a.nlargest(U, 2, key=lambda u: [i for i, v in enumerate(U) if v is u][0]))),
+             lambda: heapq.nlargest(2, U, key=lambda u: [i for i, v in enumerate(U) if v is u][0])),
+            ("merge key", lambda: a.merge(U[:2], U[2:], key=lambda u: [i for i, v in enumerate(U) if v is u][0]),
+             lambda: heapq.merge(U[:2], U[2:], key=lambda u: [i for i, v in enumerate(U) if v is u][0])),
+        ]:
+            both("untouchable items: " + name, "items-inspected:" + name.split()[0], lambda fa=fa: ids(G.drive(alist(fa()))), lambda fs=fs: ids(list(fs())))
         both("anext default", "anext:default", lambda: G.drive(a.anext(a.iter([]), "d")), lambda: next(iter([]), "d"))
         both("anext", "anext:default", lambda: G.drive(a.anext(a.iter([4]))), lambda: next(iter([4])))
         both("anext exhausted", "anext:default", lambda: G.drive(a.anext(a.iter([]))), lambda: _stop_as_async(lambda: next(iter([]))))
         both("iter(non-callable, sentinel)", "iter:misuse", lambda: a.iter(3, 4), lambda: iter(3, 4))
         both("accumulate(initial=None)", "accumulate:initial=None-object",
              lambda: G.drive(alist(a.accumulate([1, 2, 3], initial=None))), lambda: list(itertools.accumulate([1, 2, 3], initial=None)))
+        for seqs in ([[1], [2], [3]], [[], [1, 2]], [bytearray(b"a"), bytearray(b"b"), bytearray(b"c")]):
+            def acc(lib, seqs=seqs):
+                import copy
+                inp = copy.deepcopy(seqs)
+                out = G.drive(alist(a.accumulate(inp))) if lib == "asl" else list(itertools.accumulate(inp))
+                return ([list(x) for x in out], [list(x) for x in inp], len({id(x) for x in out}))
+            both("accumulate of mutable addables %r" % (seqs,), "accumulate:mutable-items", lambda: acc("asl"), lambda: acc("std"))
         both("accumulate(initial=0)", "accumulate:initial",
              lambda: G.drive(alist(a.accumulate([1, 2, 3], initial=0))), lambda: list(itertools.accumulate([1, 2, 3], initial=0)))
     if prop == "C02":
@@ -389,6 +448,42 @@ def direct_probes(prop, rep):
         both("set unhashable", "set:unhashable", lambda: G.drive(a.set([1, [2]])), lambda: builtins.set([1, [2]]))
         both("dict pairs", "dict:pairs", lambda: G.drive(a.dict([[1, 2], (3, 4)])), lambda: builtins.dict([[1, 2], (3, 4)]))
         both("reduce empty", "reduce:empty", lambda: G.drive(a.reduce(lambda x, y: x + y, [])), lambda: __import__("functools").reduce(lambda x, y: x + y, []))
+        class FalsyKey:          # a callable container that is empty: falsy, still the key function
+            def __call__(self, x):
+                return -x
+
+            def __len__(self):
+                return 0
+        fk = FalsyKey()
+        data = [3, 1, 4, 1, 5, 9, 2, 6]
+        both("min falsy key object", "key:falsy-callable", lambda: G.drive(a.min(data, key=fk)), lambda: builtins.min(data, key=fk))
+        both("max falsy key object", "key:falsy-callable", lambda: G.drive(a.max(data, key=fk)), lambda: builtins.max(data, key=fk))
+        both("sorted falsy key object", "key:falsy-callable", lambda: G.drive(a.sorted(data, key=fk)), lambda: builtins.sorted(data, key=fk))
+        both("nlargest falsy key object", "key:falsy-callable", lambda: G.drive(a.nlargest(data, 3, key=fk)), lambda: __import__("heapq").nlargest(3, data, key=fk))
+        both("nsmallest falsy key object", "key:falsy-callable", lambda: G.drive(a.nsmallest(data, 3, key=fk)), lambda: __import__("heapq").nsmallest(3, data, key=fk))
+        both("merge falsy key object", "key:falsy-callable", lambda: G.drive(alist(a.merge([5, 3, 1], [6, 4, 2], key=fk))), lambda: builtins.list(__import__("heapq").merge([5, 3, 1], [6, 4, 2], key=fk)))
+
+        # a user callable that raises StopAsyncIteration: for an aggregation it is an error like any other
+        # (StopIteration is not probed: PEP 479 turns it into RuntimeError in every coroutine, the interpreter's doing)
+        for exc in (StopAsyncIteration,):
+            def stopper(n, exc=exc):
+                c = [0]
+
+                def f(*args):
+                    c[0] += 1
+                    if c[0] == n:
+                        raise exc("from user code")
+                    return args[-1]
+                return f
+            for n in (1, 2):
+                both("reduce function raises %s at call %d" % (exc.__name__, n), "callable-stop:reduce",
+                     lambda: G.drive(a.reduce(stopper(n), [1, 2, 3, 4])), lambda: __import__("functools").reduce(stopper(n), [1, 2, 3, 4]))
+                both("reduce(initial) function raises %s at call %d" % (exc.__name__, n), "callable-stop:reduce",
+                     lambda: G.drive(a.reduce(stopper(n), [1, 2, 3, 4], 0)), lambda: __import__("functools").reduce(stopper(n), [1, 2, 3, 4], 0))
+                both("min key raises %s at call %d" % (exc.__name__, n), "callable-stop:min", lambda: G.drive(a.min([1, 2, 3], key=stopper(n))), lambda: builtins.min([1, 2, 3], key=stopper(n)))
+                both("max key raises %s at call %d" % (exc.__name__, n), "callable-stop:max", lambda: G.drive(a.max([1, 2, 3], key=stopper(n))), lambda: builtins.max([1, 2, 3], key=stopper(n)))
+                both("sorted key raises %s at call %d" % (exc.__name__, n), "callable-stop:sorted", lambda: G.drive(a.sorted([1, 2, 3], key=stopper(n))), lambda: builtins.sorted([1, 2, 3], key=stopper(n)))
+                both("nlargest key raises %s at call %d" % (exc.__name__, n), "callable-stop:nlargest", lambda: G.drive(a.nlargest([1, 2, 3], 2, key=stopper(n))), lambda: __import__("heapq").nlargest(2, [1, 2, 3], key=stopper(n)))
         both("min empty", "min:empty", lambda: G.drive(a.min([])), lambda: builtins.min([]))
 
 
@@ -624,10 +719,68 @@ def check_faults(prop, tier, seed):
     elif prop == "C04":
         fails += check_c16.aspect_release(rep, rng, ng, cancel=False)
         fails += check_c16.aspect_release(rep, rng, ng // 2, cancel=True)
+        fails += from_iterable_release(rep, rng, ng, cancel=False)
     elif prop == "C18":
         fails += check_c16.aspect_release(rep, rng, ng, cancel=True)
+        fails += from_iterable_release(rep, rng, ng // 2, cancel=True)
     finish_with_model(rep, prop, pairs, fails, proofs_ok)
     return rep.finish()
+
+
+def from_iterable_release(rep, rng, n, cancel):
+    """chain.from_iterable over an *asynchronous* iterable of sources (C04/C18): the outer iterable is owned as well.
+    Everything suspends (outer and inner pulls, every aclose). The consumer takes j items and closes, or an exception
+    is thrown at some suspension and then the owner closes the chain: afterwards the outer iterable and every inner
+    source that was handed out are closed or exhausted."""
+    import asyncstdlib as a
+    from gencalc import Ctx, Src, SrcGA, drive_tokens
+    fails = 0
+    for _ in range(n):
+        k = rng.randrange(1, 4)
+        inner_items = [[G.Obj(10 * i + j + 1, j) for j in range(rng.randrange(0, 3))] for i in range(k)]
+        # at least one step: what an unadvanced chain.from_iterable owes the outer iterable is not stated anywhere
+        take = rng.randrange(1, builtins.sum(len(x) for x in inner_items) + 2)
+        proxy = rng.random() < 0.3
+
+        def scenario(cancel_at):
+            ctx = Ctx(None)
+            inners = [(SrcGA if proxy and i % 2 else Src)(ctx, i, its, suspend=True) for i, its in enumerate(inner_items)]
+            outer = (SrcGA if proxy else Src)(ctx, 99, inners, suspend=True)
+            ch = a.chain.from_iterable(outer)
+
+            async def go():
+                got = 0
+                try:
+                    while got < take:
+                        await ch.__anext__()
+                        got += 1
+                except StopAsyncIteration:
+                    pass
+                await ch.aclose()
+            try:
+                _, toks = drive_tokens(go(), cancel_at, G.InjBase(5) if cancel_at is not None else None)
+                thrown = False
+            except G.InjBase:
+                thrown = True
+                toks = None
+                drive_tokens(ch.aclose())          # the owner closes the iterator after the cancellation
+            handed = [s_ for s_ in inners if s_.closing or s_.exh or builtins.any(e[0] == "pull" and e[1] == s_.idx for e in ctx.log)]
+            leaked = [("outer" if s_ is outer else "inner %d" % s_.idx) for s_ in [outer] + handed if not s_.released()]
+            return toks, thrown, leaked
+        toks, _, leaked = scenario(None)
+        positions = [None] + (list(range(len(toks))) if cancel else [])
+        if len(positions) > 10:
+            positions = [None] + rng.sample(positions[1:], 9)
+        for pos in positions:
+            if pos is not None:
+                _, thrown, leaked = scenario(pos)
+            rep.count(("from_iterable", repr(inner_items), take, proxy, pos), True)
+            if leaked:
+                fails += 1
+                rep.violation("chain:from_iterable-release", {"inner": repr(inner_items), "take": take, "proxy_sources": proxy, "cancel_at_suspension": pos,
+                                                              "why": "not released after the chain was closed: %r" % (leaked,)})
+                break
+    return fails
 
 
 def released_problem(case, run):
